@@ -257,7 +257,8 @@ class C06(Prop):
             # docstring-style input: the same document uniformly indented is, by flowmark's documented
             # dedent, the same document; tag lines must be recognised all the same
             n = 1 + (case["seed"] + w) % 6
-            ind = fm.fmt(textwrap.indent(d.text, " " * n), width=w, semantic=sem)
+            # (not textwrap.indent: it splits lines like str.splitlines and would indent after a VT / FS inside a code line)
+            ind = fm.fmt("\n".join((" " * n + ln) if ln.strip() else ln for ln in d.text.split("\n")), width=w, semantic=sem)
             col.mon("taglines")
             if not isinstance(ind, fm.Raised) and ind != out:
                 from vf.docbase import first_line_diff
